@@ -812,6 +812,15 @@ def evaluate(ctx, g, items):
     return out
 
 
+def coarse_signature(sig):
+    """idem:<function>:<how the second application differs>:<ascii|nonascii> -> idem:<function>:<ascii|nonascii>
+    (the way the output changes is part of the witness)."""
+    parts = sig.split(":")
+    if parts[0] == "idem" and len(parts) == 4:
+        return "idem:%s:%s" % (parts[1], parts[3])
+    return sig
+
+
 def run_case(ctx, case):
     g = case["g"]
     items = [{k: dec(v) for k, v in it.items()} for it in case["items"]]
@@ -826,7 +835,8 @@ def run_case(ctx, case):
             ctx.ok(key, nontrivial, sample)
         for sig, detail in R.viol:
             one = it
-            if sig not in ctx.violations:
+            csig = coarse_signature(sig)
+            if csig not in ctx.violations:
                 # first occurrence in this process: shrink the witness
                 def still(cands, sig=sig):
                     rs = evaluate(ctx, g, cands)
@@ -847,7 +857,8 @@ def run_case(ctx, case):
                         one = it
                 except WorkerDied:
                     one = it
-            ctx.violation(sig, detail, case={"g": g, "items": [{k: enc(v) for k, v in one.items()}]})
+            detail = dict(detail, fine_signature=sig)
+            ctx.violation(csig, detail, case={"g": g, "items": [{k: enc(v) for k, v in one.items()}]})
 
 
 def on_death(ctx, case, e):
